@@ -333,7 +333,7 @@ TRUSTED_BASE = [
 
 
 class Ctx:
-    def __init__(self, pid: str, tier: str, seed: int):
+    def __init__(self, pid: str, tier: str, seed: int, clean: bool = True):
         self.pid = pid
         self.tier = tier
         self.seed = seed
@@ -354,7 +354,7 @@ class Ctx:
         self.extra: dict = {}
         self.proof: dict | None = None
         self.known = [k for k in load_known() if k.get("property") == pid]
-        for old in REPLAYS.glob(f"{pid}-{tier}-{seed}*.json"):     # stale replays of an earlier run with the same parameters
+        for old in (REPLAYS.glob(f"{pid}-{tier}-{seed}*.json") if clean else ()):     # stale replays of an earlier run with the same parameters
             try:
                 old.unlink()
             except OSError:
